@@ -99,8 +99,8 @@ def run_bin(j):
     n = len(bins)
     vals = np.array([real(v, 0.0, 0.5) for v in j["vals2"]], dtype=np.float64)
     dtype = j.get("dtype", "float64")
-    if np.dtype(dtype).kind in "iu":
-        raise ValueError("bin jobs carry half-integers: float dtypes only")
+    if np.dtype(dtype).kind in "iu" and any(v in (NAN, PINF, NINF) or v % 2 for v in j["vals2"]):
+        raise ValueError("integer rasters cannot carry half-integers or non-finite values")
     data = vals.astype(dtype).reshape(1, -1)
     b = np.asarray(bins, dtype=np.float64 if j.get("bins_float") else np.int64)
     idx = C._cpu_bin(data, b, np.arange(n))
